@@ -430,6 +430,10 @@ impl JoinReorder {
 
         // First, extract join conditions from the filter predicate
         self.extract_join_conditions(&filter.predicate, &mut all_conditions);
+        // Conditions [0, filter_condition_count) are this Filter's own equality
+        // conjuncts; everything after comes from the join tree below (ON pairs,
+        // equality conjuncts of nested filters).
+        let filter_condition_count = all_conditions.len();
 
         // Then collect from the join tree
         let mut extra_join_filters: Vec<Expr> = Vec::new();
@@ -458,6 +462,29 @@ impl JoinReorder {
             self.rebuild_filter_without_join_conditions(&filter.predicate, &used_conditions);
 
         let mut plan = join_result;
+        // Equalities collected from the join tree that did NOT become join edges
+        // (a side that resolves to no single relation: an opaque Project /
+        // Aggregate / outer-join subtree, an expression, a same-relation pair)
+        // must be re-applied, exactly as reorder_join_tree does with its
+        // remaining_conditions. rebuild_filter_without_join_conditions only
+        // walks this Filter's own predicate, so without this they vanish and an
+        // inner join silently becomes a cross product.
+        for (idx, (l, r)) in all_conditions
+            .iter()
+            .enumerate()
+            .skip(filter_condition_count)
+        {
+            if !used_conditions.contains(&idx) {
+                plan = LogicalPlan::Filter(crate::planner::FilterNode {
+                    input: Arc::new(plan),
+                    predicate: Expr::BinaryExpr {
+                        left: Box::new(l.clone()),
+                        op: BinaryOp::Eq,
+                        right: Box::new(r.clone()),
+                    },
+                });
+            }
+        }
         // Join-node filter expressions collected during flattening must be
         // re-applied — dropping them turns joins into cross products.
         for f in &extra_join_filters {
@@ -667,7 +694,11 @@ impl JoinReorder {
                         // This edge adds more conditions between already-joined relations
                         // Add as filter on top
                         used_edges.insert(other_edge_idx);
-                        used_condition_indices.insert(other_edge_idx);
+                        // (No used_condition_indices.insert(other_edge_idx) here: that
+                        // is an EDGE index, not a condition index. Every condition of
+                        // every edge was already recorded when the edge was built;
+                        // recording an edge index marks an unrelated condition as
+                        // consumed and it is dropped from the rebuilt filter.)
                         let conditions = &other_edge.conditions;
                         for (l, r) in conditions {
                             let filter_expr = Expr::BinaryExpr {
